@@ -243,5 +243,135 @@ while done < N_SETS and tries < 50 * N_SETS:
         continue
     check_set(aset)
     done += 1
+# ---- values handed to the constructor are assertions like any other (the dataclass __init__ assigns the managed fields)
+def population_with(ctor):
+    """companies first (c_i may name earlier companies as its super-organisations), then persons (member_of / works_for at
+    construction), then the CEO role"""
+    SymbolGraph().clear()
+    SymbolGraph()
+    cs = []
+    for i in range(NC):
+        subs = [cs[j] for (k, x, j) in ctor if k == "sub" and x == i]
+        cs.append(Company(name=f"c{i}", sub_organization_of=subs) if subs else Company(name=f"c{i}"))
+    ps = []
+    for i in range(NP):
+        mem = [cs[j] for (k, x, j) in ctor if k == "member_of" and x == i]
+        wf = [cs[j] for (k, x, j) in ctor if k == "works_for" and x == i]
+        kw = {}
+        if mem:
+            kw["member_of"] = mem
+        if wf:
+            kw["works_for"] = wf[0]
+        ps.append(Person(name=f"p{i}", **kw))
+    return ps, cs, CEO(person=ps[0])
+
+
+CTORS = [[("sub", 1, 0)], [("sub", 2, 1), ("sub", 1, 0)], [("sub", 2, 0), ("sub", 2, 1)], [("member_of", 0, 1)], [("member_of", 1, 0), ("member_of", 1, 2)],
+         [("works_for", 0, 2)], [("sub", 1, 0), ("member_of", 0, 1)]]
+LATER = [[], [("sub.append", 0, 2)], [("sub.append", 2, 1)], [("sub.append", 0, 1), ("sub.append", 1, 2)], [("members.add", 0, 1)], [("head_of", 1)],
+         [("member_of.append", 0, 2)], [("sub.append", 2, 0), ("members.add", 2, 1)]]
+for ctor in CTORS:
+    for later in LATER:
+        base = [(k, ("c" if k == "sub" else "p", x), ("c", j)) for (k, x, j) in ctor]
+        if not consistent([("works_for", x, j) for (k, x, j) in ctor if k == "works_for"] + later):
+            continue
+        want = closure(base + [f for x in later for f in asserted_facts(x)])
+        for order in itertools.permutations(later):
+            st, made = guarded(lambda: population_with(ctor))
+            inp = {"constructed_with": ctor, "order": list(order)}
+            rep.case(("ctor", repr(ctor), order), nontrivial=True)
+            if st == "exc":
+                rep.fail(f"raised::constructor[{'+'.join(sorted({k for k, _, _ in ctor}))}]::{type(made).__name__}", f"constructing with {ctor} raised {type(made).__name__}: {made}", inp)
+                break
+            ps, cs, ceo = made
+            st, r = guarded(lambda: [apply(x, ps, cs, ceo) for x in order])
+            if st == "exc":
+                rep.fail(f"raised::constructor+later::{type(r).__name__}", f"constructed with {ctor}, then {list(order)} raised {type(r).__name__}: {r}", inp)
+                break
+            fields, graph, dup, mult = observed(ps, cs, ceo)
+            if fields != want or graph != want:
+                which = "fields" if fields != want else "graph"
+                got = fields if fields != want else graph
+                rep.fail(f"{which}::{'missing' if want - got else 'extra'}::constructor-values",
+                         f"objects constructed with {ctor}, then {list(order)}: the {which} miss {sorted(want - got)[:3]} and have extra {sorted(got - want)[:3]}", inp)
+                break
+# ---- a second ontology: a sub-property OF the transitive property (division_of < sub_organization_of), four units
+from dataclasses import dataclass, field
+from typing_extensions import List
+from krrood.entity_query_language.predicate import Symbol
+from krrood.ontomatic.property_descriptor.mixins import TransitiveProperty
+from krrood.ontomatic.property_descriptor.property_descriptor import PropertyDescriptor
+
+
+@dataclass
+class Unit(Symbol):
+    name: str
+    division_of: List["Unit"] = field(default_factory=list)
+    part_of: List["Unit"] = field(default_factory=list)
+
+    def __hash__(self):
+        return hash(self.name)
+
+
+@dataclass
+class PartOf(PropertyDescriptor, TransitiveProperty):
+    ...
+
+
+@dataclass
+class DivisionOf(PartOf):
+    ...
+
+
+Unit.division_of = DivisionOf(Unit, "division_of")
+Unit.part_of = PartOf(Unit, "part_of")
+NU = 4
+
+
+def unit_closure(facts):
+    facts = set(facts)
+    while True:
+        new = {("part", s, o) for (r, s, o) in facts if r == "div"}
+        # DivisionOf is a subclass of the transitive PartOf: it is transitive itself
+        new |= {(r, s, o2) for (r, s, o) in facts for (r2, s2, o2) in facts if r2 == r and s2 == o}
+        if new <= facts:
+            return facts
+        facts |= new
+
+
+UPOOL = [("div", i, j) for i in range(NU) for j in range(NU) if i != j] + [("part", i, j) for i in range(NU) for j in range(NU) if i != j]
+usets = [[("div", 0, 1), ("part", 1, 2)], [("part", 1, 2), ("div", 0, 1), ("part", 2, 3)], [("div", 0, 1), ("div", 1, 2)], [("div", 0, 1), ("div", 1, 2), ("div", 2, 3)],
+         [("part", 0, 1), ("div", 1, 2), ("part", 2, 3)], [("div", 2, 3), ("part", 0, 1), ("part", 1, 2)]]
+for _ in range(40 if a.tier == "quick" else 300):
+    cand = rng.sample(UPOOL, rng.randrange(2, 5))
+    usets.append(cand)
+for aset in usets:
+    want = unit_closure(aset)
+    for order in itertools.permutations(aset):
+        SymbolGraph().clear()
+        SymbolGraph()
+        us = [Unit(f"u{i}") for i in range(NU)]
+
+        def do(x):
+            if x[0] == "div":
+                us[x[1]].division_of.append(us[x[2]])
+            else:
+                us[x[1]].part_of.append(us[x[2]])
+        st, r = guarded(lambda: [do(x) for x in order])
+        inp = {"ontology": "division_of < part_of (transitive)", "order": list(order)}
+        rep.case(("unit", tuple(sorted(aset)), order), nontrivial=len(want) > len(aset))
+        if st == "exc":
+            rep.fail(f"raised::sub-property-of-transitive::{type(r).__name__}", f"{list(order)} raised {type(r).__name__}: {r}", inp)
+            break
+        idx = {id(u): i for i, u in enumerate(us)}
+        fields = {("div", i, idx[id(v)]) for i, u in enumerate(us) for v in u.division_of} | \
+                 {("part", i, idx[id(v)]) for i, u in enumerate(us) for v in u.part_of}
+        graph = {({"division_of": "div", "part_of": "part"}[rel.wrapped_field.public_name], idx[id(rel.source.instance)], idx[id(rel.target.instance)])
+                 for rel in SymbolGraph().relations() if id(rel.source.instance) in idx and id(rel.target.instance) in idx}
+        if fields != want or graph != want:
+            which, got = ("fields", fields) if fields != want else ("graph", graph)
+            rep.fail(f"{which}::{'missing' if want - got else 'extra'}::sub-property-of-transitive",
+                     f"division_of < part_of (transitive): after {list(order)} the {which} miss {sorted(want - got)[:3]} and have extra {sorted(got - want)[:3]}", inp)
+            break
 SymbolGraph().clear()
 rep.finish()
